@@ -12,9 +12,21 @@ STRING_OPS = {"path_join", "path_join_fmt", "parent_path", "path_file_name", "fi
               "from_str_checked"}
 PAIR_OPS = ["find", "find_buf", "match_up_to", "match_up_to_str", "ends_with", "path_join",
             "path_join_fmt", "parent_path", "path_file_name"]
+# the same operation reached another way (text handed to the formatting machinery in pieces):
+# judged by the definition of the operation it is an alias of
+ALIAS = {"path_join_fmt_split": "path_join_fmt", "from_format_split": "from_format"}
+PAIR_OPS_RUN = PAIR_OPS + ["path_join_fmt_split"]
 CTOR_OPS = ["str_try_from_bytes", "str_try_from_str", "string_try_from_bytes", "string_try_from_vec",
             "string_try_from_str", "string_try_from_string", "string_from_str", "from_format",
             "from_str_checked"]
+
+
+CTOR_OPS_RUN = CTOR_OPS + ["from_format_split"]
+
+
+def rec(op, a, b, out, view):
+    """judge record; `via` keeps the name of the entry point for messages and signatures"""
+    return {"op": ALIAS.get(op, op), "via": op, "a": a, "b": b, "out": out, "view": view}
 
 
 def shape(r):
